@@ -103,6 +103,12 @@ def execution_contract(work):
     chunks = [("stdout", b"line 1\n"), ("stderr", b"warn\n"), ("stdout", b"done\n")]
     outcomes = [dict(name="success")] + [dict(name="fail_on_call", fail_on_call=True)] + [dict(name="fail_at_%d" % k, fail_at=k) for k in range(len(chunks) + 1)] + \
                [dict(name="no_result_file", produce_result=False)]
+    # long outputs: the failure may come after any amount of output (sizes on a geometric scale, stdout and stderr mixed)
+    kib = b"x" * 1023 + b"\n"
+    big = [("stdout" if i % 3 else "stderr", kib) for i in range(300)]
+    outcomes += [dict(name="fail_after_%d_KiB" % k, fail_at=k, chunks=big) for k in (8, 63, 64, 65, 128, 300)] + \
+                [dict(name="fail_after_one_4MiB_chunk", fail_at=1, chunks=[("stdout", b"y" * (4 << 20)), ("stdout", b"z")])] + \
+                [dict(name="success_long_output", chunks=big)]
     file_lists = []
     for n in (1, 2, 3):
         file_lists.append((files1[:n], True))
@@ -120,7 +126,7 @@ def execution_contract(work):
         for oc in ocs:
             run_no += 1
             content = ("RESULT-%d" % run_no).encode()
-            POW.reset(chunks=list(chunks), result_content=content, **{k: v for k, v in oc.items() if k != "name"})
+            POW.reset(**dict(dict(chunks=list(chunks), result_content=content), **{k: v for k, v in oc.items() if k != "name"}))
             case = dict(backend=backend, files=[str(f) for f in files], images=images, output_directory=str(outdir) if outdir else None, container=oc["name"])
             tmp_default = Path(tempfile.gettempdir())
             want_out = (outdir or tmp_default) / "ANALYSIS.root"
@@ -172,7 +178,7 @@ def execution_contract(work):
                         msgs.append("filelist.txt %r, expected %r" % (POW.OBSERVED.get("filelist"), want_list))
                     if "runner.sh" not in (POW.OBSERVED.get("scripts") or []):
                         msgs.append("the package is not in the /scripts mount: %r" % (POW.OBSERVED.get("scripts"),))
-                if oc["name"] == "success":
+                if oc["name"].startswith("success"):
                     if err is not None:
                         msgs.append("successful container, but %r was raised" % (err,))
                     elif not (isinstance(val, list) and len(val) == 1 and Path(val[0]) == want_out):
@@ -194,7 +200,7 @@ def execution_contract(work):
     results.append(dict(name="C17/execute_result_async/bounded:docker_request_and_outcomes", kind="bounded", status="violation" if bad else "ok", evaluations=evals, distinct=evals,
                         exhaustive=TIER != "quick",
                         bound="3 backends x file lists (1..3 files, one directory or one file elsewhere at each position) x docker metadata (0,1,2) x output directory (default, given) "
-                              "x container outcomes (success, failure at the call, at each of 3 chunks, after the last, no result file)%s" % (" [quick: outcomes only for <=2 files and <=1 metadata]" if TIER == "quick" else ""),
+                              "x container outcomes (success, failure at the call, at each of 3 chunks, after the last, after 8..300 KiB and after one 4 MiB chunk of output, no result file)%s" % (" [quick: outcomes only for <=2 files and <=1 metadata]" if TIER == "quick" else ""),
                         detail=bad[0] if bad else "", input=bad[1] if bad else None, samples=samples))
 
 
